@@ -31,6 +31,25 @@ def _exp():
     return onnx_export
 
 
+def _exporter_standin(name="exporter"):
+    """A symbolic-heap stand-in for _Exporter: the scenario sets the fields it controls; every OTHER field the real __init__ creates is read
+    lazily from a real instance (so a field added to the class later exists and has its initial value — a harmless change must not alarm)."""
+    exp = _exp()
+    o = SObj(exp._Exporter, name)
+    real = []
+
+    def lazy(interp_, obj, attr):
+        from pyvc.interp import _MISSING
+        if attr.startswith("__"):
+            return _MISSING
+        if not real:
+            real.append(exp._Exporter(rename=False, use_operators=False, inline_const=False, skip_initializers=False))
+        d = real[0].__dict__
+        return d[attr] if attr in d else _MISSING
+    o.lazy = lazy
+    return o
+
+
 def _is_identifier(t):
     i = z3.Int("ii")
     first = z3.SubString(t, 0, 1)
@@ -319,7 +338,7 @@ def s_attr_name_conflict(ctx):
     import onnx
     I = Interp(ctx)
     exp = _exp()
-    self = SObj(exp._Exporter, "exporter")
+    self = _exporter_standin()
     attrs = ["alpha"] + (["alpha_0"] if ctx.choose(2, "a second attribute parameter is named alpha_0") == 1 else []) \
         + (["alpha_1"] if ctx.choose(2, "a third attribute parameter is named alpha_1") == 1 else [])
     other_used = {nm for nm in ("alpha_0", "alpha_1", "alpha_2", "x") if ctx.choose(2, f"the function body uses a value named {nm}") == 1}
@@ -375,7 +394,7 @@ def s_operator_text_structure(_ctx):
                 n += 1
                 ctx = Ctx([], {"solver_s": 0.0, "queries": 0})
                 I = Interp(ctx)
-                self = SObj(exp._Exporter, "exporter")
+                self = _exporter_standin()
                 consts = {}
                 if lt is not None:
                     consts["a"] = lt
@@ -430,7 +449,7 @@ def s_decorator_default_opset(ctx):
     from pyvc.values import SInt
     I = Interp(ctx)
     exp = _exp()
-    self = SObj(exp._Exporter, "exporter")
+    self = _exporter_standin()
     v = [1, 13, 18, 23][ctx.choose(4, "opset version")]
     has_default = ctx.choose(2, "the standard domain is imported") == 0
     which = ctx.choose(2, "graph (0) or function (1)")
@@ -724,7 +743,7 @@ def s_graph_text_layout(ctx):
     import onnx
     I = Interp(ctx)
     exp = _exp()
-    self = SObj(exp._Exporter, "exporter")
+    self = _exporter_standin()
     skip = ctx.choose(2, "skip_initializers") == 1
     n_skipped = ctx.choose(3, "initializers large enough to be skipped") if skip else 0
     use_ops = ctx.choose(2, "use_operators") == 0
@@ -809,7 +828,7 @@ def s_initializer_names(_ctx):
             n += 1
             ctx = Ctx([], {"solver_s": 0.0, "queries": 0})
             I = Interp(ctx)
-            self = SObj(exp._Exporter, "exporter")
+            self = _exporter_standin()
             ren = mk()
             seen = {}
 
